@@ -857,7 +857,9 @@ def evaluate(ctx, path, spec, st, cases, answers):
         nontrivial = any(w != "boundary" for w in where)
         ctx.case([st.target, _public(spec), list(path), cuts], nontrivial,
                  sample={"target": st.target, "frames": len(st.descs), "stream_len": len(st.wire), "cuts": cuts[:8],
-                         "cut_in": where[:8]} if (nontrivial and kind != "single") else None)
+                         "cut_in": where[:8], "kind": kind,
+                         "reads": [len(ob["frames"]) for ob in trace][:10]}
+                 if (nontrivial and (kind != "single" or "prefix" in where or "hap-tag" in where)) else None)
         # correspondence
         if ans == "bad-op":
             ctx.disagree(case, "n/a", ans, where="driver rejected the line")
